@@ -63,6 +63,13 @@ pub fn write_slpp(game: Game, comp: Comp) -> Outcome<Vec<u8>> {
 	})
 }
 
+pub fn write_slpp_noopts(game: Game) -> Outcome<Vec<u8>> {
+	guard(|| {
+		let mut out = vec![];
+		ppi::write(&mut out, game, None).map(|_| out).map_err(|e| format!("{}", e))
+	})
+}
+
 pub fn read_slpp(bytes: &[u8], skip: bool) -> Outcome<Game> {
 	let opts = ppi::de::Opts { skip_frames: skip };
 	guard(|| ppi::read(bytes, Some(&opts)))
